@@ -346,7 +346,8 @@ def worker(case: Dict[str, Any]) -> CaseResult:
             return CaseResult("inconclusive", note="package does not load (%r) - C04's concern" % errs[:1], stats={"import_failed": 1})
         count("generated")
         server = RefServer(schema_ref)
-        client, is_async = make_client(pkg, cfg, server)
+        from ..deps import make_tracer
+        client, is_async = make_client(pkg, cfg, server, make_tracer() if (case.get("cfg") or {}).get("_tracer") else None)  # the traced code path is a different one
 
         def build_and_send(seed: int, kind: str, opname: str):
             eg = ExprGen(pkg, schema_ref, random.Random(seed), dirty)
